@@ -1,7 +1,11 @@
 import SaModel.Build.Finish
 import SaModel.Lemmas.C18Assembled
 import SaModel.Lemmas.C18ReadAs
+import SaModel.Lemmas.C18EraseAs
+import SaModel.Lemmas.C18ReadNoCtx
+import SaModel.Lemmas.C18OwnReadAs
 import SaModel.Lemmas.C18Push
+import SaModel.Lemmas.C18OwnPush
 /-
 C18 — every conversion error names the field that caused it (serializer side).
 Errors carry annotations exactly as `ContextSupport::ctx` builds them: a context annotates only an error that
@@ -233,6 +237,75 @@ example :
       .error (.errCtx "serialize_str is not supported" [("data_type", "Int32"), ("field", "$.orders.element.price")]) := by
   decide
 
+/-! ## the blamed builder is the one whose OWN step failed (builder half, `innermost`, without completeness)
+
+Vocabulary (Lemmas/C18Own.lean): a `Call` is what a builder is asked to do (`.val x`: `x.serialize(Mut(b))`; `.default k`:
+`k` × `serialize_default`); `callBody ext b c` is the code of `b` for `c` WITHOUT its own `.ctx(self)` wrapper, the calls
+into the children being the real, wrapped ones; `OwnFails ext b c msg`: that body returns the PLAIN error `msg` — since the
+children never return plain errors (`push_not_plain`), the error is raised by the code of `b` itself, not forwarded — or
+`b` is a struct builder in a state `s` whose own `seen[idx]` check refuses a field (`Duplicate field`); `CallsOf x c`: the
+call `c` is issued while `x` is serialized (a part of `x`, a call a builder synthesises from a part — `serialize_unit` /
+tuple-struct / struct for the payload of a variant, a `u8` per byte — or a placeholder `serialize_none` /
+`serialize_default` for what `x` leaves unfilled). -/
+
+/-- the body copies are the bodies: every proper call is the wrapper around `callBody` -/
+theorem push_is_wrapped_body (ext : Ext) (b : B) (x : SVal) (hs : ∀ v, x ≠ .some v) (hn : ∀ n v, x ≠ .newtypeStruct n v) :
+    push ext b x = ctx b.ann (callBody ext b (.val x)) := push_eq_body ext b x hs hn
+
+/-- an own failure is blamed on the builder itself -/
+theorem own_failure_blames_self (ext : Ext) (b : B) (x : SVal) (msg : String) (hs : ∀ v, x ≠ .some v)
+    (hn : ∀ n v, x ≠ .newtypeStruct n v) (h : callBody ext b (.val x) = .error (.err msg)) :
+    push ext b x = .error (.errCtx msg b.ann) := by
+  rw [push_eq_body ext b x hs hn]
+  simp only [callBody] at h
+  rw [h]; simp [ctx, B.ann]
+
+/-- **push_error_deepest.** For every builder state and every serde value: an annotated error of `push ext b x` carries
+the own annotation of a builder state `b'` of the subtree of `b` (all positions of `b'` are positions of `b`) whose OWN
+step failed — `OwnFails ext b' c msg` with the very message of the error — on a call `c` issued while `x` is
+serialized.  The error is never merely the forwarded error of a child of the blamed builder: this is the `innermost`
+half of the blame property, stated operationally (no completeness of `push` w.r.t. the specification is needed). -/
+theorem push_error_deepest (ext : Ext) [ExtPlain ext] (x : SVal) (b : B) (msg : String) (ann : List (String × String))
+    (h : push ext b x = .error (.errCtx msg ann)) :
+    ∃ (b' : B) (c : Call), ann = b'.ann ∧ (∀ q ∈ positions b', q ∈ positions b) ∧ CallsOf x c ∧ OwnFails ext b' c msg :=
+  push_raised ext x b msg ann h
+
+/-- **push_error_deepest, schema form**: a builder created by `build_builder` at `path` for type `dt`, after any
+successfully pushed rows: the next error is a panic, or names the position `render path segs` of the schema, and the
+builder at that position — in the state `b'` it has at that moment — failed in its own step on a call of `x` -/
+theorem push_error_deepest_in_schema (ext : Ext) [ExtPlain ext] (dt : DataType) (path : String) (nullable : Bool) (md : Metadata)
+    (b0 : B) (h0 : newDT path dt nullable md = .ok b0) (rows : List SVal) (b : B)
+    (hb : rows.foldlM (push ext) b0 = .ok b) (x : SVal) (e : Fail) (h : push ext b x = .error e) :
+    (∃ site, e = .panic site) ∨
+    ∃ msg segs label b' c, (segs, label) ∈ segsDT dt md ∧
+      e = .errCtx msg [("data_type", label), ("field", render path segs)] ∧
+      b'.path = render path segs ∧ b'.label = label ∧ CallsOf x c ∧ OwnFails ext b' c msg := by
+  cases e with
+  | panic s => exact .inl ⟨s, rfl⟩
+  | err msg => exact absurd h (push_not_plain ext x b msg)
+  | errCtx msg ann =>
+    obtain ⟨b', c, rfl, hsub, hc, ho⟩ := push_error_deepest ext x b msg ann h
+    have hq := hsub _ (self_mem_positions b')
+    rw [foldl_push_positions ext rows b0 b hb] at hq
+    obtain ⟨segs, hs, hr⟩ := positions_below dt path nullable md b0 h0 _ hq
+    have hr' : b'.path = render path segs := hr
+    exact .inr ⟨msg, segs, b'.label, b', c, hs, by simp only [B.ann]; rw [hr'], hr', rfl, hc, ho⟩
+
+/-- non-vacuity (the example of `push_error_in_record`): the blamed builder is the `Int32` leaf below the list, in the
+state after the two prices it accepted; its own step (`serialize_str` on an `Int32` builder) fails; and that call is
+issued while the row is serialized -/
+example :
+    OwnFails {} (.leaf "$.orders.element.price" (.int .i32) none [5, 6]) (.val (.str "seven")) "serialize_str is not supported" ∧
+    CallsOf (.record "R" (.cons "orders" 0 (.seq (.cons (.record "O" (.cons "price" 0 (.int .i32 6) .nil))
+          (.cons (.record "O" (.cons "price" 0 (.str "seven") .nil)) .nil))) .nil)) (.val (.str "seven")) :=
+  ⟨.body (by decide), .inl (.record (.head (.seq (.tail (.head (.record (.head (.self _))))))))⟩
+
+/-- non-vacuity of the struct's own check: the same field twice -/
+example :
+    (do let root ← newRoot [.mk "a" .int32 false []]
+        push {} root (.record "R" (.cons "a" 0 (.int .i32 1) (.cons "a" 0 (.int .i32 2) .nil)))) =
+      .error (.errCtx "Duplicate field" [("data_type", "Struct(..)"), ("field", "$")]) := by decide
+
 /-! ## reader half
 
 Model: `SaModel/Read/Annot.lean` — the reads of `Read/Reader.lean` with the paths `ArrayDeserializer::new`
@@ -321,6 +394,150 @@ deserialize_seq …`) -/
 theorem pinned_fsl_blames_ancestor :
     readRecordA AnnFixes.pinned Fixes.all exFslTarget ⟨"c", false, []⟩ exFsl 1 =
       some (.error (.errCtx "Out of bounds access" [("data_type", "Struct(..)"), ("field", "$.c")])) := by decide
+
+/-! ### erasure: the annotated reader model IS the reader model of C02 / C12 / C17, plus annotations
+
+`eraseAnn` (Read/Annot.lean) forgets the annotation of an annotated error and keeps everything else: the value of a
+success, the site of a panic, the message of an error.  For every `AnnFixes` (with or without the two C18 wrappers),
+every `Fixes`, every target, every path and every view — consistent or not — the annotated read erases to the
+un-annotated read of `Read/Reader.lean`, the function `read_typed_decode` (C02), `readAs_no_panic` /
+`readAs_touch_in_range` (C17) and the C12 theorems are about.  (The un-annotated model returns no annotated error —
+`readAs_noctx` — so the right-hand side needs no `eraseAnn`; the form `eraseAnn _ = eraseAnn _` follows.) -/
+
+/-- **eraseAnn_readAnyA**: `deserialize_any`, by recursion over the view -/
+theorem eraseAnn_readAnyA (fx : Fixes) (p : String) (a : Arr) (idx : Nat) :
+    eraseAnn (readAnyA fx p a idx) = readAny fx a idx := by
+  rw [readAnyA_erase fx a p idx, eraseAnn_noctx]
+
+/-- **eraseAnn_readAsA**: the typed reads, by the mutual recursion over the target -/
+theorem eraseAnn_readAsA (af : AnnFixes) (fx : Fixes) (t : Target) (p : String) (a : Arr) (idx : Nat) :
+    eraseAnn (readAsA af fx p t a idx) = readAs fx t a idx := by
+  rw [readAsA_erase af fx t p a idx, eraseAnn_noctx]
+
+theorem eraseAnn_readAsA' (t : Target) (p : String) (a : Arr) (idx : Nat) :
+    eraseAnn (readAsA AnnFixes.all Fixes.all p t a idx) = eraseAnn (readAs Fixes.all t a idx) :=
+  readAsA_erase _ _ t p a idx
+
+/-- **eraseAnn_readRecordA**: the record level (`Deserializer::get(idx)` + `T::deserialize`) -/
+theorem eraseAnn_readRecordA (af : AnnFixes) (fx : Fixes) (t : Target) (fm : FieldMeta) (col : Arr) (idx : Nat) :
+    (readRecordA af fx t fm col idx).map eraseAnn = readRecord fx t fm col idx := by
+  unfold readRecordA readRecord
+  split
+  · rfl
+  · simp only [Option.map_some, eraseAnn_readAsA]
+
+/-- transfer, successes: the annotated read returns `v` exactly when the un-annotated one does -/
+theorem readAsA_ok_iff (af : AnnFixes) (fx : Fixes) (t : Target) (p : String) (a : Arr) (idx : Nat) (v : DVal) :
+    readAsA af fx p t a idx = .ok v ↔ readAs fx t a idx = .ok v := by
+  rw [← eraseAnn_readAsA af fx t p a idx]
+  cases readAsA af fx p t a idx with
+  | ok w => simp [eraseAnn]
+  | error e => cases e <;> simp [eraseAnn]
+
+/-- transfer, panics: same panic sites -/
+theorem readAsA_panic_iff (af : AnnFixes) (fx : Fixes) (t : Target) (p : String) (a : Arr) (idx : Nat) (s : String) :
+    readAsA af fx p t a idx = .error (.panic s) ↔ readAs fx t a idx = .error (.panic s) := by
+  rw [← eraseAnn_readAsA af fx t p a idx]
+  cases readAsA af fx p t a idx with
+  | ok w => simp [eraseAnn]
+  | error e => cases e <;> simp [eraseAnn]
+
+/-- transfer, errors: with the code that exists, the un-annotated read fails with `msg` exactly when the annotated one
+fails with `msg` and some annotation (which `read_error_position` locates) -/
+theorem readAsA_err_iff (fx : Fixes) (t : Target) (p : String) (a : Arr) (idx : Nat) (msg : String) :
+    (∃ ann, readAsA AnnFixes.all fx p t a idx = .error (.errCtx msg ann)) ↔ readAs fx t a idx = .error (.err msg) := by
+  rw [← eraseAnn_readAsA AnnFixes.all fx t p a idx]
+  have hnp := readAsA_not_plain fx t p a idx
+  cases h : readAsA AnnFixes.all fx p t a idx with
+  | ok w => simp [eraseAnn]
+  | error e =>
+    cases e with
+    | err m => exact absurd h (hnp m)
+    | panic s => simp [eraseAnn]
+    | errCtx m ann => simp [eraseAnn]
+
+/-- non-vacuity: a read that fails two readers below the root — the annotated model names `$.c.x`, the un-annotated
+one returns the same message -/
+example :
+    readRecordA AnnFixes.all Fixes.all exFslTarget ⟨"c", false, []⟩ exFsl 1 =
+      some (.error (.errCtx "Out of bounds access" [("data_type", "FixedSizeList(..)"), ("field", "$.c.x")])) ∧
+    readRecord Fixes.all exFslTarget ⟨"c", false, []⟩ exFsl 1 = some (.error (.err "Out of bounds access")) := by
+  decide
+
+/-! ### the blamed reader is the one whose OWN step failed (reader-side blame, operational form)
+
+Vocabulary (Lemmas/C18OwnRead.lean): an `RCall` is what a reader is asked (`deserialize_any`, or the typed read a target
+issues); `rBody af fx p c a idx` is the code of the reader of the view `a` at path `p` for that call at row `idx` WITHOUT
+its own `.ctx(self)` wrapper, the reads of the child readers being the real, wrapped ones; `OwnFailsR af fx p a c idx msg`:
+that body returns the PLAIN error `msg`.  With the code that exists child reads never return plain errors
+(`read_not_plain`), so a plain error of the body is raised by the reader's own code (bounds / offset / type-id checks,
+the visitor refusing the value, an unsupported method), not forwarded from a child reader. -/
+
+/-- the body copies are the bodies: `deserialize_any` is the wrapper around `anyBody` … -/
+theorem readAnyA_is_wrapped_body (fx : Fixes) (p : String) (a : Arr) (idx : Nat) :
+    readAnyA fx p a idx = ctx (rann p a) (rBody AnnFixes.all fx p .any a idx) := by
+  cases a <;> (unfold readAnyA rBody anyBody; rfl)
+
+/-- … and every typed read that is not transparent (`any`, `IgnoredAny`, newtype) is the wrapper around `asBody` -/
+theorem readAsA_is_wrapped_body (fx : Fixes) (t : Target) (p : String) (a : Arr) (idx : Nat)
+    (h1 : t ≠ .any) (h2 : t ≠ .ignored) (h3 : ∀ t', t ≠ .newtype t') :
+    readAsA AnnFixes.all fx p t a idx = ctx (rann p a) (rBody AnnFixes.all fx p (.as t) a idx) := by
+  cases t with
+  | any => exact absurd rfl h1
+  | ignored => exact absurd rfl h2
+  | newtype t' => exact absurd rfl (h3 t')
+  | seq t' => unfold readAsA rBody asBody; cases a <;> rfl
+  | enum bi vs => unfold readAsA rBody asBody; cases a <;> rfl
+  | tuple ts => unfold readAsA rBody asBody tupleVisitA; rfl
+  | tupleStruct ts => unfold readAsA rBody asBody tupleVisitA; rfl
+  | struct tfs => unfold readAsA rBody asBody structVisitA; rfl
+  | _ => unfold readAsA rBody asBody; rfl
+
+/-- an own failure is blamed on the reader itself -/
+theorem own_failure_blames_reader (fx : Fixes) (t : Target) (p : String) (a : Arr) (idx : Nat) (msg : String)
+    (h1 : t ≠ .any) (h2 : t ≠ .ignored) (h3 : ∀ t', t ≠ .newtype t')
+    (h : OwnFailsR AnnFixes.all fx p a (.as t) idx msg) :
+    readAsA AnnFixes.all fx p t a idx = .error (.errCtx msg (rann p a)) := by
+  rw [readAsA_is_wrapped_body fx t p a idx h1 h2 h3, h]; simp [ctx, rann]
+
+/-- **read_error_deepest.** Every annotated error of `deserialize_any` or of a typed read (any target, any path, any
+view, any row) carries the annotation `rann p' a'` of a reader of the subtree — all positions of the reader of `a'` at
+`p'` are positions of the reader read from — whose OWN step failed with the very message of the error, on some call at
+some row: never merely the forwarded error of a child reader. -/
+theorem read_error_deepest (fx : Fixes) (t : Target) (p : String) (a : Arr) (idx : Nat) (msg : String)
+    (ann : List (String × String)) :
+    (readAnyA fx p a idx = .error (.errCtx msg ann) →
+      ∃ p' a' c idx', ann = rann p' a' ∧ (∀ q ∈ rpositions p' a', q ∈ rpositions p a) ∧
+        OwnFailsR AnnFixes.all fx p' a' c idx' msg) ∧
+    (readAsA AnnFixes.all fx p t a idx = .error (.errCtx msg ann) →
+      ∃ p' a' c idx', ann = rann p' a' ∧ (∀ q ∈ rpositions p' a', q ∈ rpositions p a) ∧
+        OwnFailsR AnnFixes.all fx p' a' c idx' msg) :=
+  ⟨readAnyA_raisedR AnnFixes.all fx a p idx msg ann, readAsA_raisedR AnnFixes.all fx t p a idx msg ann⟩
+
+/-- the record level: an error of `Deserializer::get(idx)` + `T::deserialize` is a panic or the own failure of the root
+reader `$` or of a reader below it -/
+theorem readRecord_error_deepest (fx : Fixes) (t : Target) (fm : FieldMeta) (col : Arr) (idx : Nat) (e : Fail)
+    (h : readRecordA AnnFixes.all fx t fm col idx = some (.error e)) :
+    (∃ site, e = .panic site) ∨ ∃ msg p' a' c idx', e = .errCtx msg (rann p' a') ∧
+      (∀ q ∈ rpositions p' a', q ∈ rpositions "$" (record fm col)) ∧ OwnFailsR AnnFixes.all fx p' a' c idx' msg := by
+  unfold readRecordA at h
+  split at h
+  · cases h
+  · simp only [Option.some.injEq] at h
+    cases e with
+    | panic s => exact .inl ⟨s, rfl⟩
+    | err msg => exact absurd h (readAsA_not_plain fx t _ _ idx msg)
+    | errCtx msg ann =>
+      obtain ⟨p', a', c, i', rfl, hs, ho⟩ := readAsA_raisedR AnnFixes.all fx t "$" _ idx msg ann h
+      exact .inr ⟨msg, p', a', c, i', rfl, hs, ho⟩
+
+/-- non-vacuity: the two witnesses above — the union reader's own variant lookup fails (`unknown variant`), the
+fixed-size-list reader's own bounds check fails — and the errors of the record reads are exactly these readers' -/
+example :
+    OwnFailsR AnnFixes.all Fixes.all "$.c" exUnion (.as (.enum false (.cons "x" (.newtype .any) .nil))) 0 "unknown variant" ∧
+    OwnFailsR AnnFixes.all Fixes.all "$.c.x" (.fixedSizeList 1 none 2 ⟨"item", false, []⟩ (.prim .int32 none [1, 2]))
+      (.as (.seq .any)) 1 "Out of bounds access" := by
+  constructor <;> (unfold OwnFailsR; decide)
 
 /-- non-vacuity of `reader_paths_assembled` / `read_error_position`: a map column below a list -/
 example :
